@@ -148,14 +148,6 @@ def pop (less : α → α → Bool) (h : Heap α) : Option (Heap α × α × Lis
     some ({ a := s.1, gen := bump popBumpsGen h.gen }, it, n1 ++ s.2)
   | _, _ => none
 
-/-- `Pop` until the heap is empty (at most `fuel` times): the items in the order handed out -/
-def drain (less : α → α → Bool) : Nat → Heap α → List α
-  | 0, _ => []
-  | f + 1, h =>
-    match pop less h with
-    | none => []
-    | some (h', x, _) => x :: drain less f h'
-
 /-- `RemoveAt(i)`; `none` = index-out-of-range panic (nothing modified yet) -/
 def removeAt (less : α → α → Bool) (h : Heap α) (i : Nat) : Option (Heap α × List (Note α)) :=
   if i < h.a.length then
@@ -183,7 +175,8 @@ def updateAt (less : α → α → Bool) (h : Heap α) (i : Nat) (x : α) : Opti
     some ({ a := t.1, gen := bump updateAtBumpsGen h.gen }, n1 ++ s.2 ++ t.2)
   else none
 
-/-- `Grow` / `Shrink` reallocate at most; contents and (per the generated facts) `gen` unchanged -/
+/-- `Grow` / `Shrink` reallocate at most (`xslices.Grow/Shrink`, not modelled: contents unchanged);
+`gen` moves iff the generated fact says the function contains `h.gen++` -/
 def grow (h : Heap α) : Heap α := { h with gen := bump growBumpsGen h.gen }
 def shrink (h : Heap α) : Heap α := { h with gen := bump shrinkBumpsGen h.gen }
 
@@ -220,8 +213,40 @@ def lessOfLess (less : α → α → Bool) : α → α → Bool := fun a b => ne
 /-- `xheap.NewCmp`: `compare(a, b) < 0` -/
 def lessOfCmp (cmp : α → α → Int) : α → α → Bool := fun a b => newLessWrap (cmpLess (cmp a b))
 
-/-- every wrapper method of `xheap.Heap` forwards to the inner heap -/
-def wrapperForwards : Bool :=
-  xPushForwards && xPopForwards && xPeekForwards && xLenForwards && xIterateForwards
+/-! The methods of `xheap.Heap` (the only way `internal/heap` is reachable from outside the module).
+Each is *defined* by the generated fact "the body of the wrapper is exactly the forwarding statement":
+with the fact `false` the wrapper does nothing (returns nothing = `none`), so every theorem about the
+wrapper operations (`Props/C05`, `Props/C15Heap`) needs the fact. -/
+namespace X
+
+def push (less : α → α → Bool) (h : Heap α) (x : α) : Heap α :=
+  if xPushForwards then (Heap.push less h x).1 else h
+
+/-- `Pop`; `none` = panic -/
+def pop (less : α → α → Bool) (h : Heap α) : Option (Heap α × α) :=
+  if xPopForwards then (Heap.pop less h).map (fun r => (r.1, r.2.1)) else none
+
+/-- `Peek`; `none` = panic -/
+def peek (h : Heap α) : Option α := if xPeekForwards then Heap.peek h else none
+
+def len (h : Heap α) : Int := if xLenForwards then Heap.len h else 0
+
+def grow (h : Heap α) : Heap α := if xGrowForwards then Heap.grow h else h
+def shrink (h : Heap α) : Heap α := if xShrinkForwards then Heap.shrink h else h
+
+/-- `Next` of the iterator handed out by `xheap.Heap.Iterate`: the inner heap's iterator (an
+iterator that is not the inner heap's is modelled as the empty one) -/
+def iterNext (h : Heap α) (it : Iter) : Iter × IterOut α :=
+  if xIterateForwards then Heap.iterNext h it else (it, .done)
+
+/-- `Pop` until the heap is empty (at most `fuel` times): the items in the order handed out -/
+def drain (less : α → α → Bool) : Nat → Heap α → List α
+  | 0, _ => []
+  | f + 1, h =>
+    match pop less h with
+    | none => []
+    | some (h', x) => x :: drain less f h'
+
+end X
 
 end Juniper.Model.Heap
